@@ -186,8 +186,8 @@ func vfC04NewSess(v int, comp bool) (*vfC04Sess, error) {
 	cl.ProtoVersion = v
 	cl.disableControlConn = true
 	cl.NumConns = 1
-	cl.Timeout = 10 * time.Second
-	cl.ConnectTimeout = 10 * time.Second
+	cl.Timeout = 90 * time.Second // generous: a slow machine must never look like a wrong answer
+	cl.ConnectTimeout = 90 * time.Second
 	cl.ReconnectInterval = 0
 	cl.Logger = nopLogger{}
 	if comp {
@@ -238,14 +238,7 @@ func vfC04SessView(s *vfC04Sess, c *vfC04Case, mode string, skip, iterOnly bool)
 			}
 		}()
 		it, fr, _ := open()
-		if fr != nil && fr.header != nil {
-			h := fr.header
-			v["hv"], v["hresp"] = int(h.version.version()), h.version.response()
-			v["hflags"], v["hop"], v["hlen"] = int(h.flags), int(h.op), h.length
-			if s.comp {
-				v["hlen"] = -1
-			}
-		}
+		_ = fr // only the public Iter API is observed here
 		v["warnings"] = vfC04Strs(it.Warnings())
 		v["payload"] = vfC04PayloadView(it.GetCustomPayload())
 		f := vfC04M{"flags": -1, "colcount": -1, "paging": vfC04B2I(it.PageState()), "cols": vfC04ColsView(it.Columns()), "nrows": it.NumRows()}
@@ -278,6 +271,26 @@ func vfC04SessView(s *vfC04Sess, c *vfC04Case, mode string, skip, iterOnly bool)
 		v["f"] = f
 	}()
 	return v
+}
+
+// vfC04Transient: the query ran into the (90 s) client timeout - machine load, not an answer.
+func vfC04Transient(v vfC04M) bool {
+	is := func(s string) bool {
+		return strings.Contains(s, "no response received") || strings.Contains(s, "deadline exceeded") || strings.Contains(s, "i/o timeout")
+	}
+	if s, _ := v["perr"].(string); is(s) {
+		return true
+	}
+	if f, ok := v["f"].(vfC04M); ok {
+		for _, x := range f {
+			if c, ok := x.(vfC04M); ok {
+				if s, _ := c["err"].(string); is(s) {
+					return true
+				}
+			}
+		}
+	}
+	return false
 }
 
 var vfC04ErrStop = errors.New("vfC04: binding stops here")
@@ -420,6 +433,10 @@ func TestVfC04Run(t *testing.T) {
 			defer wg.Done()
 			comp := strings.HasSuffix(js[0].mode, "-z")
 			s, err := vfC04NewSess(js[0].c.V, comp)
+			for try := 0; err != nil && try < 3; try++ { // set-up is retried
+				time.Sleep(time.Second)
+				s, err = vfC04NewSess(js[0].c.V, comp)
+			}
 			if err != nil {
 				omu.Lock()
 				sessErr[key] = err.Error()
@@ -429,11 +446,19 @@ func TestVfC04Run(t *testing.T) {
 			}
 			defer s.close()
 			for _, j := range js {
-				if strings.HasPrefix(j.mode, "sess-prep") {
-					emit(vfC04PrepView(s, j.c, j.mode))
-				} else {
-					emit(vfC04SessView(s, j.c, j.mode, strings.HasPrefix(j.mode, "sess-skip"), strings.HasPrefix(j.mode, "sess-iter")))
+				var view vfC04M
+				for try := 0; try < 3; try++ {
+					if strings.HasPrefix(j.mode, "sess-prep") {
+						view = vfC04PrepView(s, j.c, j.mode)
+					} else {
+						view = vfC04SessView(s, j.c, j.mode, strings.HasPrefix(j.mode, "sess-skip"), strings.HasPrefix(j.mode, "sess-iter"))
+					}
+					if !vfC04Transient(view) {
+						break
+					}
+					view["transient"] = true // still timing out after the retries: not evidence about the code
 				}
+				emit(view)
 			}
 		}(key, js)
 	}
